@@ -83,7 +83,7 @@ class _Bounded:
     pass
 
 
-def _run_bounded(argv, data, timeout, env, cap_out=1 << 30, keep_err=1 << 16):
+def _run_bounded(argv, data, timeout, env, cap_out=1 << 30, keep_err=16 << 20):
     """subprocess.run with bounds: at most cap_out bytes of stdout are kept (then the process is killed: returncode -9), of stderr only the first
     and last keep_err bytes - code under test that floods a stream must not be buffered without limit by the check"""
     import threading, signal as _sig
